@@ -169,3 +169,90 @@ def _literals(t):
         elif z3.is_app(c) and c.decl().kind() in (z3.Z3_OP_ADD, z3.Z3_OP_SUB, z3.Z3_OP_MUL):
             out += _literals(c)
     return out
+
+
+class LinCheck:
+    """Linearity typing of a z3 term in a set of excitation variables E.
+
+    classes: 'zero' (literal 0), 'const' (no E variable below), 'lin' (additive and odd in E: t(e1+e2)=t(e1)+t(e2), t(-e)=-t(e)),
+    'bconst' (Boolean without E).  Rules (each preserves the meaning by structural induction):
+      lin +/- lin = lin ; const * lin = lin ; lin / const = lin ; -lin = lin ; ite(bconst, lin, lin) = lin (zero counts as lin)
+      stub(const..., lin...) = lin when the stub's assumed contract is linearity in those arguments ; everything else -> not typable.
+    """
+
+    def __init__(self, evars, lin_stubs):
+        self.evars = set(evars)
+        self.lin_stubs = lin_stubs  # base name -> set of argument positions that are excitation arguments
+        self.cache = {}
+        self.nodes = 0
+        self.why = None
+
+    def cls(self, t):
+        k = t.get_id()
+        if k not in self.cache:
+            self.nodes += 1
+            self.cache[k] = self._cls(t)
+        return self.cache[k]
+
+    def _fail(self, t, msg):
+        if self.why is None:
+            self.why = f"{msg}: {_short(t, 200)}"
+        return "fail"
+
+    def _cls(self, t):
+        if z3.is_rational_value(t) or z3.is_int_value(t) or z3.is_algebraic_value(t):
+            return "zero" if _num_is_zero(t) else "const"
+        if z3.is_true(t) or z3.is_false(t):
+            return "bconst"
+        kind = t.decl().kind()
+        ch = t.children()
+        name = t.decl().name()
+        if z3.is_const(t) and kind == z3.Z3_OP_UNINTERPRETED:
+            if name in self.evars:
+                return "lin"
+            return "bconst" if z3.is_bool(t) else "const"
+        cs = [self.cls(c) for c in ch]
+        if "fail" in cs:
+            return "fail"
+        if z3.is_bool(t):
+            if all(c in ("const", "zero", "bconst") for c in cs):
+                return "bconst"
+            return self._fail(t, "Boolean depending on the excitation")
+        if all(c in ("const", "zero") for c in cs) and kind != z3.Z3_OP_ITE:
+            return "const" if not (kind in (z3.Z3_OP_MUL,) and "zero" in cs) else "zero"
+        if kind in (z3.Z3_OP_ADD, z3.Z3_OP_SUB):
+            if all(c in ("lin", "zero") for c in cs):
+                return "lin"
+            return self._fail(t, "sum of a linear and a constant term (affine, not linear)")
+        if kind == z3.Z3_OP_UMINUS:
+            return cs[0]
+        if kind == z3.Z3_OP_MUL:
+            if "zero" in cs:
+                return "zero"
+            if cs.count("lin") == 1 and all(c in ("lin", "const") for c in cs):
+                return "lin"
+            return self._fail(t, "product of two excitation-dependent factors")
+        if kind == z3.Z3_OP_DIV:
+            if cs[0] in ("lin", "zero") and cs[1] == "const":
+                return cs[0]
+            return self._fail(t, "division by an excitation-dependent term")
+        if kind == z3.Z3_OP_ITE:
+            if cs[0] != "bconst":
+                return self._fail(t, "branch condition depends on the excitation")
+            a, b = cs[1], cs[2]
+            if a in ("lin", "zero") and b in ("lin", "zero"):
+                return "lin" if "lin" in (a, b) else "zero"
+            if a in ("const", "zero") and b in ("const", "zero"):
+                return "const"
+            return self._fail(t, "branches of different linearity class")
+        if kind == z3.Z3_OP_TO_REAL:
+            return cs[0]
+        if kind == z3.Z3_OP_UNINTERPRETED:
+            base = name.rsplit("_", 1)[0]
+            if base in self.lin_stubs:
+                pos = self.lin_stubs[base]
+                ok = all((c in ("lin", "zero")) if i in pos else (c in ("const", "zero")) for i, c in enumerate(cs))
+                if ok:
+                    return "lin"
+            return self._fail(t, f"function {name} applied to an excitation-dependent argument")
+        return self._fail(t, f"operator {t.decl()}")
